@@ -2,7 +2,7 @@
 import json, os
 
 from . import extract
-from .rules import lock7, seq, mutex, ptr, lockword, qsbr, enc, exc, acc, cfgdiff, enum1, iterrules, prefix, point, find, slot
+from .rules import lock7, seq, mutex, ptr, lockword, qsbr, enc, exc, acc, cfgdiff, enum1, iterrules, prefix, point, find, slot, nodes, couple
 from . import olcrules
 
 VERIF = os.path.dirname(os.path.dirname(os.path.abspath(__file__)))
@@ -123,7 +123,7 @@ def olc_side(rule, what='the olc_db instantiation'):
     return R(run)
 
 
-SEQ_POINT = [R(point.noeff1), R(point.keyeq1), R(find.find1), R(find.ord1), R(slot.slot1), R(point.pair1), R(point.copy1), R(lambda cfg: point.desc1(cfg, which='point')), R(prefix.pfx1), R(prefix.pfx2), R(lambda cfg: point.type1(cfg, which='point'))]
+SEQ_POINT = [R(point.noeff1), R(point.keyeq1), R(find.find1), R(find.ord1), R(slot.slot1), R(point.pair1), R(point.copy1), R(lambda cfg: point.desc1(cfg, which='point')), R(prefix.pfx1), R(prefix.pfx2), R(lambda cfg: point.type1(cfg, which='point')), R(lambda cfg: nodes.mut1(cfg, parts=('count', 'clear'))), R(nodes.idx1)]
 SEQ_SCAN = [R(seq.cmp3), R(enc.cmp_shape), R(enum1.enum1), R(iterrules.iter2), R(lambda cfg: point.desc1(cfg, which='seek')), R(iterrules.vis1), R(lambda cfg: point.type1(cfg, which='scan'))]
 
 
@@ -143,7 +143,7 @@ SCAN = 'olc_db iterator and scan functions and everything they call'
 PROPERTIES['C01'] = {
     'level': 'other',
     'configs': two,
-    'rules': [R(point.noeff1), R(point.keyeq1), R(point.leaf1), R(point.leaf2), R(point.leaf3), R(point.root1), R(point.split1), R(point.pair1), R(point.copy1), R(point.desc1), R(find.find1), R(find.ord1), R(slot.slot1), R(prefix.pfx1), R(prefix.pfx2), R(lambda cfg: point.type1(cfg, which='point')),
+    'rules': [R(point.noeff1), R(point.keyeq1), R(point.leaf1), R(point.leaf2), R(point.leaf3), R(point.root1), R(point.split1), R(point.pair1), R(point.copy1), R(point.desc1), R(find.find1), R(find.ord1), R(slot.slot1), R(prefix.pfx1), R(prefix.pfx2), R(lambda cfg: point.type1(cfg, which='point')), R(lambda cfg: nodes.mut1(cfg, parts=('count', 'clear'))), R(nodes.idx1),
               advisory(R(lambda cfg: iterrules.sib1_point(cfg, accounting=False))), R(lambda cfg: olcrules.lock6(cfg, kinds=('leaf',))), R(olcrules.lock6b)],
     'technique': 'static analysis: path-sensitive effect flow with callee summaries (result/effect correlation), control-dependence rules (full-key comparison guards), writer/reader expression agreement, abstract interpretation of the node search and key-prefix arithmetic in byte-vector / lane-wise three-valued domains with exhaustively enumerated lengths and counts, sibling differencing db vs olc_db',
     'explanation': 'The local generators of "point operations behave as a map", decided on the clang-instantiated code of all three index classes and both key kinds; the behaviour over all histories is NOT decided (see does_not_decide). '
@@ -154,7 +154,7 @@ PROPERTIES['C01'] = {
                    'FIND-1 find_child of each node class returns exactly the child stored for the key byte: I4 / I16 by lane-wise three-valued evaluation of the SSE search with child count and match position enumerated and stale slots free, I48 / I256 by term comparison; SLOT-1 I48 files a new child in the first null slot of its pointer array (lane-wise evaluation of the SSE4.2 / AVX2 / scalar search, first null slot enumerated 0..47); ORD-1 the dense classes insert at the rank of the new key byte (sortedness preserved); PAIR-1 every function of the dense classes writes the key array and the child array in lock-step (same target and source slots), so slot i of one always describes slot i of the other. '
                    'DESC-1 the descent of get / insert / remove / seek compares each node prefix with the shifted working copy of the key, shifts it by the prefix length, selects the child by its first byte and shifts by one, in this order, the tracked depth moving in step; COPY-1 the grow / shrink initialisers walk the slot arrays of their source node from slot 0 to the array size; '
                    'SPLIT-1 node splits dispatch on the bytes at the split position (leaf split: k1[depth+L] / shifted_k2[L]; prefix split: prefix[len] read before the cut by len+1, key[depth+len]); CAP-1 / CAP-2 the interval obligations "longest common prefix of two distinct keys <= key_prefix_capacity" at the leaf split and "merged prefix <= capacity" at the collapse hold for 64-bit keys and FAIL for byte-string keys - two genuine defects of the pinned tree, listed in known_findings.json and printed as KNOWN-FINDING (replays triage/d1_long_prefix.cpp, triage/d1b_collapse_overflow.cpp). '
-                   'TYPE-1 a tagged node pointer is reinterpreted as a leaf only where its type tag was tested to be LEAF and as an inner node only where it was tested not to be (control dependence on the tag test, through locals and out-parameters holding the tag). PFX-1 key_prefix::cut / prepend are the specified byte permutations for every combination of lengths and every content of the stale bytes; PFX-2 shared_len is min(first differing byte, clamp). '
+                   'MUT-1 effect summaries of the per-class mutators: add_to_nonfull stores (count it was given) + 1 into children_count exactly once on every path, remove stores (old count) - 1, the sparse classes clear the slot they free (I48: child_indexes[i] = empty_child and the pointer slot nulled, I256: children[i] = nullptr); IDX-1 std::array subscripts under counting loops stay inside the slot arrays (constant bounds evaluated, child-count bounds must be strict). TYPE-1 a tagged node pointer is reinterpreted as a leaf only where its type tag was tested to be LEAF and as an inner node only where it was tested not to be (control dependence on the tag test, through locals and out-parameters holding the tag). PFX-1 key_prefix::cut / prepend are the specified byte permutations for every combination of lengths and every content of the stale bytes; PFX-2 shared_len is min(first differing byte, clamp). '
                    'SIB-1p (ADVISORY only - differencing two sibling implementations fires on a behaviour-preserving rewrite of one of them, so its reports go into the evidence notes and never into the verdict; the absolute rules above decide) db and olc_db take the same algorithmic decisions (child lookup, prefix comparison, key shifts, leaf match, node creation by class, helper calls; statistics events projected away - they are C10) on every path of get / insert / remove and of the add / remove helpers of every node class.',
     'decides': 'result/effect correlation; full-key-comparison guards; leaf layout agreement and immutability; per-node lookup, insert position and slot pairing; split dispatch bytes; key-prefix arithmetic; db/olc_db algorithm agreement',
     'does_not_decide': 'the map behaviour as a theorem over all operation histories and key sets (that needs an inductive tree invariant - functional verification, outside static analysis); the iterator-style copy loops of the I4-from-I16 shrink beyond PAIR-1',
@@ -203,16 +203,16 @@ PROPERTIES['C03'] = {
     'level': 'other',
     'configs': two,
     'rules': [scoped(olc('LOCK-1'), _olc_point_roots, POINT), scoped(olc('LOCK-2'), _olc_point_roots, POINT), scoped(olc('LOCK-3'), _olc_point_roots, POINT), scoped(olc('LOCK-5'), _olc_point_roots, POINT),
-              scoped(olc('LOCK-9'), _olc_point_roots, POINT), scoped(olc('ROLE'), _olc_point_roots, POINT), scoped(R(point.lock11), _olc_point_roots, POINT),
+              scoped(olc('LOCK-9'), _olc_point_roots, POINT), scoped(olc('ROLE'), _olc_point_roots, POINT), scoped(R(point.lock11), _olc_point_roots, POINT), scoped(R(couple.lock12), _olc_point_roots, POINT), scoped(R(couple.lock13), _olc_point_roots, POINT),
               R(lockword.lw)] + [olc_side(r_) for r_ in SEQ_POINT],
     'technique': 'static analysis: relational path-sensitive typestate dataflow (bounded sets of worlds of must/may atoms) over event-CFGs with per-return callee summaries and index-sensitive write-effect summaries',
     'explanation': 'Protocol conformance of the optimistic-lock-coupling code, decided by a relational, path-sensitive dataflow (bounded sets of worlds of must/may atoms over the variables of each function, '
                    'per-return summaries through the dispatcher/shim forwarders, effect summaries for protected-field writes) over every OLC function that owns or receives read sections or write guards, both key kinds: '
                    'LOCK-1 no node pointer read under a read section is dereferenced, and no non-restart result returned, before that section is re-validated; '
                    'LOCK-2 every store to a protected field (direct or through callees, index-sensitive for children) happens under an active write guard on the written node, or the node is fresh / obsoleted by this operation; '
-                   'LOCK-3 guards are taken root-to-leaf and nothing waits while a guard is held; LOCK-5 nodes are obsoleted before they are retired; LOCK-9 lock coupling: the section on a child is opened while the section it was reached under is still open; ROLE helper call sites pass matching section/node pairs; LOCK-11 on the failing side of every lock-step test (must_restart / check / try_read_unlock) only the restart result is returned, never a definitive answer. Verdicts are scoped to the callee closure of olc_db get / insert / remove (the iterator is C09). The property also rests on the lock itself and on the sequential algorithm as instantiated for olc_db, so the lock-word premises LW-1..5 (C07) and the OLC-side findings of the sequential rules NOEFF-1, KEYEQ-1, FIND-1, ORD-1, SLOT-1, PAIR-1, COPY-1, DESC-1, PFX-1/2, TYPE-1 (C01) are reported here too. '
+                   'LOCK-3 guards are taken root-to-leaf and nothing waits while a guard is held; LOCK-5 nodes are obsoleted before they are retired; LOCK-9 lock coupling: the section on a child is opened while the section it was reached under is still open; ROLE helper call sites pass matching section/node pairs; LOCK-11 on the failing side of every lock-step test (must_restart / check / try_read_unlock) only the restart result is returned, never a definitive answer; LOCK-12 the root pointer is loaded only after the read section on the root pointer lock has been opened; LOCK-13 the validation half of lock coupling: once a section has been opened on a further node every section already open is stale until validated again (check / try_read_unlock / upgrade), and no tree-modifying step (node mutators, stores into pointer slots, unlock_and_obsolete - may-analysis through by-reference parameters, with per-function entry requirements and per-return summaries) is made and no inode-derived definitive result returned (must-analysis) while an open section is stale. Verdicts are scoped to the callee closure of olc_db get / insert / remove (the iterator is C09). The property also rests on the lock itself and on the sequential algorithm as instantiated for olc_db, so the lock-word premises LW-1..5 (C07) and the OLC-side findings of the sequential rules NOEFF-1, KEYEQ-1, FIND-1, ORD-1, SLOT-1, PAIR-1, COPY-1, DESC-1, PFX-1/2, TYPE-1, MUT-1, IDX-1 (C01) are reported here too. '
                    'Each rule is a necessary condition of linearizability: its breach yields a concrete torn read / lost update under some schedule.',
-    'decides': 'OLC protocol conformance (LOCK-1,2,3,5,9,11, ROLE) on every CFG path of every instantiation of the point operations and their helpers',
+    'decides': 'OLC protocol conformance (LOCK-1,2,3,5,9,11,12,13, ROLE) on every CFG path of every instantiation of the point operations and their helpers',
     'does_not_decide': 'linearizability of histories as such; value-level correctness of the tree algorithms',
 }
 PROPERTIES['C04'] = {
@@ -220,11 +220,11 @@ PROPERTIES['C04'] = {
     'configs': two,
     'rules': [olc('LOCK-1'), olc('LOCK-5'), R(olcrules.lock6), R(olcrules.lock6b),
               R(qsbr.q_free_paths), R(qsbr.q_rotation), R(qsbr.q_barriers), R(lambda cfg: qsbr.q_orphans(cfg, parts=('7', '9'))), R(qsbr.q_tagging), R(qsbr.q_last_out), R(qsbr.q_register_epoch), R(qsbr.q_wrap),
-              R(lambda cfg: qsbr.q_rotation(cfg, parts=('3',))), R(qsbr.q_cas), R(lambda cfg: qsbr.q_orphans(cfg, parts=('8',))), R(qsbr.q_tail_link), R(qsbr.q_sink), R(ptr.ptr3), R(point.lock11)],
+              R(lambda cfg: qsbr.q_rotation(cfg, parts=('3',))), R(qsbr.q_cas), R(lambda cfg: qsbr.q_orphans(cfg, parts=('8',))), R(qsbr.q_tail_link), R(qsbr.q_sink), R(ptr.ptr3), R(point.lock11), olc_side(R(lambda cfg: nodes.mut1(cfg, parts=('reclaim',))))],
     'technique': 'static analysis: relational typestate dataflow (validate-before-dereference, obsolete-before-retire), who-may-construct rule for immediate-deleter owners; the QSBR who-may-free / ordering / control-dependence rules of C05',
     'explanation': 'Structural safety conditions of "no use of reclaimed memory": LOCK-1 (no pointer obtained from a node is followed before the read section on that node is re-validated, so a stale pointer to a retired node is never dereferenced) '
                    'and LOCK-5 (every node an OLC operation hands to reclamation was unlocked-and-obsoleted by it first, so readers still holding a section on it restart; checked at restart returns too - a node retired and then abandoned by a restart is still linked), on every path of every OLC function, both key kinds; '
-                   'LOCK-6 (in the OLC instantiation an existing node is never wrapped in an owner with the immediate deleter outside the single-threaded teardown: ever-reachable nodes are freed only through QSBR); LOCK-6b (the reclaiming deleters hand exactly the node they were given, with its size, to on_next_epoch_deallocate and free nothing themselves). The second half of the property - what was retired is not freed before every reader that might hold it has quiesced - rests on the QSBR safety generators, which are therefore checked here too: Q-1,2,3,4,5,7,9,10,11,12,14,17 (see C05); and the last clause - every unlinked node is freed exactly once - on the linearity rules of C06 (Q-3, Q-6, Q-8, Q-13, Q-15/16). PTR-3 the span handed out by get() reproduces the data / size of the value view; LOCK-11 no definitive result after a failed lock step.',
+                   'LOCK-6 (in the OLC instantiation an existing node is never wrapped in an owner with the immediate deleter outside the single-threaded teardown: ever-reachable nodes are freed only through QSBR); LOCK-6b (the reclaiming deleters hand exactly the node they were given, with its size, to on_next_epoch_deallocate and free nothing themselves). The second half of the property - what was retired is not freed before every reader that might hold it has quiesced - rests on the QSBR safety generators, which are therefore checked here too: Q-1,2,3,4,5,7,9,10,11,12,14,17 (see C05); and the last clause - every unlinked node is freed exactly once - on the linearity rules of C06 (Q-3, Q-6, Q-8, Q-13, Q-15/16) and on MUT-1 (reclaim part, OLC instantiation: the remove of every node class hands the unlinked leaf to the reclaiming deleter exactly once). PTR-3 the span handed out by get() reproduces the data / size of the value view; LOCK-11 no definitive result after a failed lock step.',
     'decides': 'validate-before-dereference; obsolete-before-retire; deferred free only; the local generators of the two-epoch delay of QSBR',
     'does_not_decide': 'the global epoch invariant of QSBR under all interleavings (as C05); eventual reclamation as liveness',
 }
@@ -232,12 +232,12 @@ PROPERTIES['C09'] = {
     'level': 'other',
     'configs': two,
     'rules': [scoped(olc('LOCK-1'), _olc_scan_roots, SCAN), scoped(olc('LOCK-7'), _olc_scan_roots, SCAN), scoped(olc('LOCK-8'), _olc_scan_roots, SCAN), scoped(olc('LOCK-9'), _olc_scan_roots, SCAN), scoped(olc('ROLE'), _olc_scan_roots, SCAN),
-              scoped(R(seq.iter1), _olc_scan_roots, SCAN), scoped(R(iterrules.reseek), _olc_scan_roots, SCAN), scoped(R(iterrules.iter3), _olc_scan_roots, SCAN), scoped(R(iterrules.iter4), _olc_scan_roots, SCAN), scoped(R(iterrules.iter5), _olc_scan_roots, SCAN), scoped(R(point.lock11), _olc_scan_roots, SCAN),
+              scoped(R(seq.iter1), _olc_scan_roots, SCAN), scoped(R(iterrules.reseek), _olc_scan_roots, SCAN), scoped(R(iterrules.iter3), _olc_scan_roots, SCAN), scoped(R(iterrules.iter4), _olc_scan_roots, SCAN), scoped(R(iterrules.iter5), _olc_scan_roots, SCAN), scoped(R(point.lock11), _olc_scan_roots, SCAN), scoped(R(couple.lock12), _olc_scan_roots, SCAN), scoped(R(couple.lock13), _olc_scan_roots, SCAN),
               R(lockword.lw)] + [olc_side(r_) for r_ in SEQ_SCAN],
     'technique': 'static analysis: relational typestate dataflow over the OLC iterator functions (section validation, stack-entry/version pairing, lock coupling), must-pass-through rules for the re-seek path and the fall-off branch of seek',
     'explanation': 'Structural conditions of concurrent-scan correctness on the OLC iterator functions: LOCK-1 (snapshots validated before use / before a non-restart return), LOCK-7b (no validation on an ended, empty or moved-from section), '
                    'LOCK-8 (every stack entry is pushed with the version of the read section opened on the node it describes, so a later rehydrate/check validates the right lock word), LOCK-9 (hand-over-hand: the child section is opened before the parent section is given up), ROLE (the traversals receive the section their node argument was read under), ITER-1 (the sibling computed is the sibling visited, also on the re-seek path), '
-                   'RESEEK-1 (when a step finds its stack invalidated it re-seeks to the key it stood on, captured before anything is unwound, in the direction of the step, and steps past it exactly when the re-seek found that key again), ITER-3 (when seek falls off an inner node the first stack operation is the sibling step on the parent entry, never a pop), ITER-4 / ITER-5 (direction table and net stack effect of the OLC iterator functions), LOCK-11 (a failed lock step or a failed push leads to the restart result only). Verdicts are scoped to the callee closure of the olc_db iterator and scan functions (the sequential iterator is C02); the lock-word premises LW-1..5 and the OLC-side findings of CMP-2/3, ENUM-1, ITER-2, DESC-1 (seek), VIS-1, TYPE-1 are reported here too.',
+                   'RESEEK-1 (when a step finds its stack invalidated it re-seeks to the key it stood on, captured before anything is unwound, in the direction of the step, and steps past it exactly when the re-seek found that key again), ITER-3 (when seek falls off an inner node the first stack operation is the sibling step on the parent entry, never a pop), ITER-4 / ITER-5 (direction table and net stack effect of the OLC iterator functions), LOCK-11 (a failed lock step or a failed push leads to the restart result only), LOCK-12 / LOCK-13 (the root pointer is loaded inside its section; nothing definitive while an open section is stale - see C03). Verdicts are scoped to the callee closure of the olc_db iterator and scan functions (the sequential iterator is C02); the lock-word premises LW-1..5 and the OLC-side findings of CMP-2/3, ENUM-1, ITER-2, DESC-1 (seek), VIS-1, TYPE-1 are reported here too.',
     'decides': 'snapshot validation, stack-entry/version pairing and sibling-step consistency in try_first/last/next/prior/seek and the traversals',
     'does_not_decide': 'ordering / completeness of delivered keys under interleavings',
 }
@@ -395,13 +395,13 @@ PROPERTIES['C08'] = {
 PROPERTIES['C10'] = {
     'level': 'other',
     'configs': lambda tier: [B, D] if tier == 'quick' else [c for c in extract.all_configs() if '-stats-' in c],
-    'rules': [R(acc.acc1), R(acc.acc2), R(acc.acc4), R(acc.acc5), R(acc.acc6), R(acc.own1), R(exc.exc2)],
+    'rules': [R(acc.acc1), R(acc.acc2), R(acc.acc4), R(acc.acc5), R(acc.acc6), R(acc.own1), R(exc.exc2), R(lambda cfg: nodes.mut1(cfg, parts=('count', 'reclaim', 'foreach')))],
     'technique': 'static analysis: constant-chain and decision-expression rules on the size classes, counter who-may-write discipline, per-path create/account matching, loop-bound descriptors of subtree deletion, ownership linearity dataflow',
     'explanation': 'The local generators of "shape, statistics and memory accounting are functions of the key set", for db and olc_db, both key kinds: '
                    'ACC-1 the size-class constants form the chain 2-4 / 5-16 / 17-48 / 49-256, a node grows exactly when its count equals the capacity of ITS OWN class into the NEXT class, shrinks exactly at the minimum size of its own class into the PREVIOUS class, a two-child node collapses, splits create I4; '
                    'ACC-2 the growth / shrink counters are written only by account_growing_inode / account_shrinking_inode and only incremented, and along every non-restart path of every helper instantiation the nodes created-and-published equal the growth accounted for (class by class), a dissolved node is accounted as shrunk exactly once, key_prefix_splits moves only in the inserts; '
                    'ACC-4 clear() / destruction delete the whole subtree of a non-null root - every child slot of every node class (loop bounds: children_count for the dense classes, 48 resp. 256 slots for the indexed ones) - then reset root, memory use and the per-class counters; '
-                   'ACC-6 every decrement (inode count per class, leaf count, memory use) is the exact mirror image of its increment - same slot, same amount - and the slots of the five node classes are distinct; ACC-5 olc_db counters are updated by one atomic read-modify-write, never by a store computed from a load of the same counter; OWN-1 a node pointer released from its unique_ptr is published or re-owned on every path to every return (restart returns included), so nothing stays allocated and counted without being in the tree; EXC-2 allocation and accounting move together in factories and deleters.',
+                   'ACC-6 every decrement (inode count per class, leaf count, memory use) is the exact mirror image of its increment - same slot, same amount - and the slots of the five node classes are distinct; ACC-5 olc_db counters are updated by one atomic read-modify-write, never by a store computed from a load of the same counter; OWN-1 a node pointer released from its unique_ptr is published or re-owned on every path to every return (restart returns included), so nothing stays allocated and counted without being in the tree; EXC-2 allocation and accounting move together in factories and deleters; MUT-1 the per-class mutators keep children_count exact (add: + 1, remove: - 1, stored once on every path - the grow / shrink thresholds of ACC-1 are read from it), remove hands the removed leaf to reclamation exactly once (the slot named by its index parameter; I48 through its pointer helpers), I256::for_each_child - the teardown walk - calls its callback.',
     'decides': 'grow / shrink / collapse thresholds and target classes; counter discipline; completeness of subtree deletion; no leak of released nodes; allocation <-> accounting pairing',
     'does_not_decide': 'history independence of the shape as a theorem over all operation histories (it decides the local rules that generate it)',
 }
